@@ -57,9 +57,27 @@ def member_lists(nv):
     return out
 
 
+def _fail():
+    raise RuntimeError("callback fails")
+
+
 def judge(w, members, rvn, ren):
     uni = Universe(vertices=[w.v[i] for i in members])
     mem = [w.v[i] for i in members]
+    if rvn == next(iter(RV)) and ren == next(iter(RE)):
+        # exports that fail come first: of a universe of all vertices, with a node-label function that
+        # raises at the k-th vertex (every k) and an edge-title function that raises -- a failed export
+        # must not spoil the valid one that follows (of this, usually smaller, universe)
+        allv = Universe(vertices=list(w.v))
+        try:
+            egpyvis.make_pyvis_net(allv, refunc=lambda e: _fail())
+        except Exception:  # noqa: BLE001
+            pass
+        for k in reversed(range(len(w.v))):       # later failures first: an earlier one must not tidy up after them
+            try:
+                egpyvis.make_pyvis_net(allv, rvfunc=lambda v, _k=w.v[k]: _fail() if v is _k else "x")
+            except Exception:  # noqa: BLE001
+                pass
     try:
         net = egpyvis.make_pyvis_net(uni, rvfunc=RV[rvn], refunc=RE[ren])
     except Exception as e:  # noqa: BLE001
